@@ -11,6 +11,7 @@
 package keystore
 
 import (
+	"strings"
 	"bytes"
 	"encoding/json"
 	"fmt"
@@ -323,4 +324,89 @@ func TestVerifKeystore(t *testing.T) {
 		}
 	}
 	res.Extra["classes"] = classes
+	vksUnlock(t, res, rng, keys)
+}
+
+type vksInserter struct{ kps []KeyPair }
+
+func (i *vksInserter) Insert(kp KeyPair) error { i.kps = append(i.kps, kp); return nil }
+
+// vksUnlock: the round trip as a node makes it at start-up: several accounts stored with EncryptAndWriteToFile, unlocked by ONE
+// UnlockKeys call (every scheme, every order, a wrong password on the last account).  Every account handed to the key store
+// holds, at the end of the call, exactly the key that was stored for it; an account whose password was wrong is not handed
+// over and does not change the ones before it.
+func vksUnlock(t *testing.T, res *vResult, rng *rand.Rand, keys map[string][]crypto.PrivateKey) {
+	schemes := []string{"ed25519", "sr25519", "secp256k1", "ed25519", "sr25519"}
+	for trial := 0; trial < 12; trial++ {
+		base := t.TempDir()
+		if err := os.Mkdir(filepath.Join(base, "keystore"), 0o700); err != nil {
+			t.Fatalf("VERIF-INFRA mkdir: %v", err)
+		}
+		perm := rng.Perm(len(schemes))
+		var stored []crypto.PrivateKey
+		var pws []string
+		for fi, si := range perm {
+			pk := keys[schemes[si]][rng.Intn(len(keys[schemes[si]]))]
+			pw := fmt.Sprintf("pw-%d-%d", trial, fi)
+			if err := EncryptAndWriteToFile(filepath.Join(base, "keystore", fmt.Sprintf("k%02d.key", fi)), pk, []byte(pw)); err != nil {
+				t.Fatalf("VERIF-INFRA write key file: %v", err)
+			}
+			stored = append(stored, pk)
+			pws = append(pws, pw)
+		}
+		order := rng.Perm(len(stored))
+		wrongLast := trial%3 == 2
+		var idx, pw []string
+		for oi, fi := range order {
+			idx = append(idx, fmt.Sprint(fi))
+			if wrongLast && oi == len(order)-1 {
+				pw = append(pw, "not-"+pws[fi])
+			} else {
+				pw = append(pw, pws[fi])
+			}
+		}
+		ins := &vksInserter{}
+		var err error
+		pm := vTry(func() { err = UnlockKeys(ins, base, strings.Join(idx, ","), strings.Join(pw, ",")) })
+		cls := "all-passwords-right"
+		if wrongLast {
+			cls = "last-password-wrong"
+		}
+		res.Case("unlock", fmt.Sprintf("%s|%v|%v", cls, perm, order))
+		fail := func(field, exp, got, what string) {
+			res.Fail(1000+trial, 0, "unlock", field, exp, got, "C37/unlock/"+cls+"/"+what, nil)
+		}
+		res.Cmp()
+		if pm != "" {
+			fail("panic", "no panic", pm, "panic")
+			continue
+		}
+		wantN := len(order)
+		if wrongLast {
+			wantN--
+			if err == nil {
+				fail("err", "error (wrong password)", "nil", "accepted-wrong-password")
+			}
+		} else if err != nil {
+			fail("err", "nil", err.Error(), "round-trip-error")
+			continue
+		}
+		res.Cmp()
+		if len(ins.kps) != wantN {
+			fail("accounts", fmt.Sprint(wantN), fmt.Sprint(len(ins.kps)), "account-count")
+			continue
+		}
+		for oi, kp := range ins.kps {
+			want := stored[order[oi]]
+			res.Cmp()
+			pr, ok := kp.(Privater)
+			if !ok {
+				t.Fatalf("VERIF-INFRA key pair %T has no private key accessor", kp)
+			}
+			if got := pr.Private().Encode(); !bytes.Equal(got, want.Encode()) {
+				fail(fmt.Sprintf("account %d (file %d, %s) unlocked %d-th of %d", oi, order[oi], kp.Type(), oi+1, len(order)), vHex(want.Encode()), vHex(got), "round-trip-different-key")
+				break
+			}
+		}
+	}
 }
